@@ -1,0 +1,13 @@
+//go:build verif
+
+package hash
+
+// VerifSeed, when non-nil, pins the seed returned by RandSeed (verification builds only).
+var VerifSeed *uint32
+
+func verifSeed() (uint32, bool) {
+	if VerifSeed != nil {
+		return *VerifSeed, true
+	}
+	return 0, false
+}
